@@ -56,7 +56,7 @@ def main():
         ],
         "checks": checks,
         "not_applicable": na,
-        "notes": "See DESIGN.md. ./selftest runs curated mutants/refactors (mutants/*.json) and the seeded changes (seeded/*/) against the checks. Growth beyond the listed properties: `./check X01 quick|thorough` (spec/Geometry.tla, spec/Misc.tla: utils/geometry.py, utils/funcs.py, utils/fft.py, packing_capability_2d; see design_notes/X01.md) is not a claimed property check. Unbounded integer lemmas (spec/MinImageLemma.tla, BinLemma.tla, GridIndexLemma.tla) are discharged by Apalache inside the C02, C03, C01 and C16 checks.",
+        "notes": "See DESIGN.md. ./selftest runs curated mutants/refactors (mutants/*.json) and the seeded changes (seeded/*/) against the checks. Growth beyond the listed properties (not claimed property checks): `./check X01 quick|thorough` (spec/Geometry.tla, spec/Misc.tla: utils/geometry.py, utils/funcs.py, utils/fft.py, packing_capability_2d; design_notes/X01.md) and `./check X02 quick|thorough` (spec/VoroPP.tla, VoroHist.tla, WaveExtra.tla: the voro++ pipeline cal_voro / voronowalls with voro++ as an environment component, indicehis, wavevector2d/3d, continuousvector; design_notes/X02.md). Unbounded integer lemmas (spec/MinImageLemma.tla, BinLemma.tla, GridIndexLemma.tla) are discharged by Apalache inside the C02, C03, C01 and C16 checks.",
     }
     json.dump(man, open(os.path.join(V, "MANIFEST.json"), "w"), indent=1)
     print(len(checks), "checks,", len(na), "not claimed")
